@@ -6,7 +6,7 @@ import TracklibVerif.Model.GraphPD
 `pop_smallest` returns the node `popMinAux` designates (ties on the label broken by the node id). -/
 namespace TV.Graph
 open TV.PDict
-variable {W : Type} [AddCommMonoid W] [LinearOrder W] [IsOrderedAddMonoid W]
+variable {W : Type} [LinearOrder W] [Add W] [Zero W] [WalkAdd W]
 
 /-- `popMinAux` returns the smallest `(label, id)` pair in tuple order -/
 theorem popMinAux_lex (st : St W) (k : Nat) (u : Nat) (x : W) (h : popMinAux st k = some (u, x)) :
